@@ -68,7 +68,9 @@ class C07:
                     acc.pop('interpolator_window_size', None)
                     if acc.get('quad_npts', 100) < 100:
                         acc['quad_npts'] = 100
-            pairs.append((sk, tk, G.draw_scatterer(rng, sk, ext), th))
+            pairs.append((sk, tk, G.draw_scatterer(
+                rng, sk, ext, grid={'shape': shape, 'spacing': spc,
+                                    'origin': [0, 0]}), th))
         need_x = any(tk in G.NEEDS_X_POL or
                      (tk == 'auto' and sk in ('spheroid', 'cylinder'))
                      for sk, tk, _, _ in pairs)
